@@ -574,6 +574,37 @@ func runC08(c *eng.Ctx) {
 	c.Rule("PROV", "pkg/queue.consumerGroup.IsEmpty{appended <= acknowledged}", func() { groupEmptyMeansAcknowledged(c) })
 
 	// ---- one cached partition per log directory ---------------------------------------------------------------------------------------
+	// ---- the registry of family logs is replaced in the hold in which it was read ----------------------------------------------
+	// (a partition registered between the read and the replacement would be dropped from the registry while a write stream keeps
+	// using it; the next look-up opens a second partition over the same files, with its own append position)
+	c.Rule("ATOMIC", "replica.writeAheadLog.destroy{registry read + replace}", func() {
+		f := c.Fn("replica.writeAheadLog.destroy")
+		walMu := "replica.writeAheadLog.mutex"
+		ls := p.Locks(f, nil)
+		var reads []ssa.Instruction
+		for _, b := range eng.BlocksT(f) {
+			for _, in := range b.Instrs {
+				if eng.LoadField("replica.writeAheadLog.familyLogs")(p, in) {
+					reads = append(reads, in)
+				}
+			}
+		}
+		stores := p.Sites(f, eng.StoreField("replica.writeAheadLog.familyLogs"))
+		if len(reads) == 0 || len(stores) == 0 {
+			c.Undecided("unresolved anchor: destroy reads (%d) and replaces (%d) w.familyLogs", len(reads), len(stores))
+		}
+		for i, st := range stores {
+			for j, rd := range reads {
+				ok, why := ls.SameHold(rd, st.Instr, walMu, true)
+				c.Check(ok, fmt.Sprintf("read-and-replace-one-hold[%d,%d]", i, j), st.Instr, f, "the registry is replaced in the write hold in which the kept logs were selected from it", why)
+			}
+		}
+		g := c.Fn("replica.writeAheadLog.GetOrCreatePartition")
+		for i, s := range c.Some(g, eng.MapUpdateOf("replica.writeAheadLog.familyLogs"), "w.familyLogs[key] = p") {
+			c.Check(p.Locks(g, nil).At(s.Instr).HasField(walMu, true), fmt.Sprintf("register-under-the-mutex[%d]", i), s.Instr, g, "a new partition is registered under the same mutex", "")
+		}
+	})
+
 	c.Rule("LAYOUT", "replica.writeAheadLog.GetOrCreatePartition{cache key names what the log directory names}", func() {
 		f := c.Fn("replica.writeAheadLog.GetOrCreatePartition")
 		open := c.One(f, func(_ *eng.Prog, in ssa.Instruction) bool {
